@@ -7,7 +7,9 @@ ID = "C13"
 LEVEL = "proof"
 MODULE = "NrDaemon.Props.C13"
 RULE = ("engine lasp: the real ConnectApplication (verifySecurityPolicies, addPoliciesToPayload, RawSecurityPolicies) against a scripted "
-        "collector; quick: all pairs of agent/collector maps over 2 policy names (each absent or one of 4 flag combinations), with and "
+        "collector, called directly (`connect`) and reached the way an agent reaches it (`pconnect`: App message -> CommandsHandler -> the real "
+        "Processor loop -> considerConnect -> ConnectApplication -> processConnectAttempt, the returned policies read from the AppReply of a "
+        "second query); quick: all pairs of agent/collector maps over 2 policy names (each absent or one of 4 flag combinations), with and "
         "without a token, plus random maps over 5 names; thorough: all pairs over 3 names. Non-trivial = token present and both maps "
         "non-empty; distinct = distinct op lines.")
 ASSUMPTIONS = ["the collector answers preconnect and connect with success (failures of those calls belong to C03)",
@@ -28,12 +30,13 @@ def enc(names, combo):
     return ",".join(parts) if parts else "-"
 
 
-def all_pairs(names):
+def all_pairs(names, verbs=("connect", "pconnect")):
     ops = []
     for a in itertools.product(AG, repeat=len(names)):
         for p in itertools.product(AG, repeat=len(names)):
             for tok in (0, 1):
-                ops.append("lasp connect token=%d ap=%s pre=%s" % (tok, enc(names, a), enc(names, p)))
+                for verb in verbs:
+                    ops.append("lasp %s token=%d ap=%s pre=%s" % (verb, tok, enc(names, a), enc(names, p)))
     return ops
 
 
@@ -44,7 +47,7 @@ def plan(ctx):
     for _ in range(300 if tier == "quick" else 5000):
         a = [rng.choice(AG) for _ in names]
         p = [rng.choice(AG) for _ in names]
-        ops.append("lasp connect token=%d ap=%s pre=%s" % (rng.choice([1, 1, 0]), enc(names, a), enc(names, p)))
+        ops.append("lasp %s token=%d ap=%s pre=%s" % (rng.choice(["connect", "pconnect"]), rng.choice([1, 1, 0]), enc(names, a), enc(names, p)))
     seqs = [("lasp-%d" % i, ops[i:i + 200]) for i in range(0, len(ops), 200)]
     return [("corpus", corpus(ID)), ("enum", seqs)]
 
